@@ -25,7 +25,7 @@ TRUSTED = ["argparse, file objects, json.dump and process exit are runtime (obse
            "is computed by calling the library directly (the property is 'faithful front end to the library')"]
 ASSUMPTIONS = ["the in-process run and a real subprocess behave alike (a sample is run both ways)"]
 
-DOC = {"a": [1, 2, {"b": "x"}], "s": "é", "n": None, "t": True}
+DOC = {"a": [1, 2, {"b": "x"}], "s": "é", "n": None, "t": True, "a ": "trailing space", " ": "blank", "t\t": "tab", "new key": 0}
 GOOD_DOC = json.dumps(DOC).encode()
 BAD_DOCS = [b'{"a": ', b'{"a": "\xff\xfe"}', b'']
 # documents whose top-level value is a JSON string - some of them holding text that is itself JSON (the library reads a
@@ -41,7 +41,9 @@ PATH_EXPRS = [("$.a[0]", None), ("$..b", None), ("$[?@.b == 'x']", None), ("$.a[
               ("$.a\n  [2]\n  .b", None), ("\n$.a[0]", None), ("$[?@.b\n == 'x']", None), ("$.a[0,\n1]", None), ("$.a\n[", "JSONPathSyntaxError")]
 POINTERS = [("/a/0", None), ("/a/2/b", None), ("", None), ("/s", None), ("/a/9", "JSONPointerIndexError"), ("/zz", "JSONPointerKeyError"),
             ("/s/0", "JSONPointerTypeError"), ("a", "JSONPointerError"), ("/a/-", "JSONPointerIndexError"), ("/%61", None), ("/\\u0061", None),
-            ("/a\n/0", "JSONPointerKeyError"), ("\n/a/0", None)]
+            ("/a\n/0", "JSONPointerKeyError"), ("\n/a/0", None),
+            # an INLINE expression is taken as it is (only an expression read from a file loses the blank space around it)
+            ("/a ", None), ("/ ", None), ("/t\t", None), ("/zz  ", "JSONPointerKeyError"), ("/a/2/b ", "JSONPointerKeyError"), (" /a/0", None)]
 PATCHES = [([{"op": "add", "path": "/z", "value": 1}], None), ([{"op": "remove", "path": "/a/0"}], None), ([], None),
            ([{"op": "test", "path": "/t", "value": True}, {"op": "replace", "path": "/n", "value": [1]}], None),
            ([{"op": "test", "path": "/t", "value": 1}], "JSONPatchTestFailure"), ([{"op": "remove", "path": "/zz"}], "JSONPatchError"),
